@@ -119,6 +119,65 @@ TASKS = [
     FunctionTask(TRIM, registry={"TimeSeries.time": FuncV(_time_method, "TimeSeries.time")}, clauses=["nearest-sample inclusive trim; illogical ranges refused"]),
 ]
 
+# ---------------------------------------------------------------------------------------------------------------------
+# SeismicRecording3C._to_dict / _from_dict: what save() hands to json and what load() builds from it.  json.dump / json.load are external
+# (A-JSON-FLOAT: repr(float) round-trips); the two functions around them are under contract, the composition is the lemma below.
+from pyvc.core import DictV, StrV
+from pyvc.objects import SObj, fld, arr_len, arr_at
+import contracts.C10 as C10
+
+NS_ID, EW_ID, VT_ID = z3.Ints("ns_id ew_id vt_id")
+DEG3 = z3.Real("degrees_from_north")
+_COMP = {"ns": NS_ID, "ew": EW_ID, "vt": VT_ID}
+
+
+def _td_inputs(ex, st):
+    st.env["self"] = sym_obj(ex, st, "SeismicRecording3C", {"ns": SObj("TimeSeries", NS_ID, "param:self.ns"), "ew": SObj("TimeSeries", EW_ID, "param:self.ew"),
+                                                            "vt": SObj("TimeSeries", VT_ID, "param:self.vt"), "degrees_from_north": DEG3, "meta": DictV({})}, owner="param:self")
+    return [arr_len("TimeSeries", "amplitude", c) >= 0 for c in _COMP.values()]
+
+
+_same = lambda key, comp: (f"len(result['{key}']) == len(self.{comp}.amplitude) and "
+                           f"forall(i, 0, len(self.{comp}.amplitude), result['{key}'][i] == self.{comp}.amplitude[i])")
+TO_DICT = Contract(qual="hvsrpy.seismic_recording_3c.SeismicRecording3C._to_dict", params=["self"], make_inputs=_td_inputs, modifies=[],
+                   ensures=["result['dt_in_seconds'] == self.ns.dt_in_seconds", _same("ns_amplitude", "ns"), _same("ew_amplitude", "ew"), _same("vt_amplitude", "vt"),
+                            "result['degrees_from_north'] == self.degrees_from_north"],
+                   notes="every sample of every component, the time step and the orientation go into the dictionary")
+
+NA_, NB_, NC_ = z3.Ints("n_ns n_ew n_vt")
+DTD, DEGD = z3.Reals("dt_in_seconds stored_degrees")
+
+
+def _fd_inputs(ex, st):
+    st.env["data"] = DictV({"ns_amplitude": sym_arr1(ex, st, "ns_amplitude", NA_, owner="param:data.ns_amplitude"),
+                            "ew_amplitude": sym_arr1(ex, st, "ew_amplitude", NB_, owner="param:data.ew_amplitude"),
+                            "vt_amplitude": sym_arr1(ex, st, "vt_amplitude", NC_, owner="param:data.vt_amplitude"),
+                            "dt_in_seconds": DTD, "degrees_from_north": DEGD, "meta": DictV({})})
+    st.env["cls"] = FuncV(_m_3c_ctor, "SeismicRecording3C")
+    return [NA_ >= 0, NB_ >= 0, NC_ >= 0]
+
+
+def _m_3c_ctor(ex, st, args, kw, node):
+    """SeismicRecording3C(ns, ew, vt, degrees_from_north, meta): components copied, orientation reduced to [0, 360) - its contract is proved in C04"""
+    d = kw["degrees_from_north"]
+    return ex.alloc_obj(st, "SeismicRecording3C", {"ns": args[0], "ew": args[1], "vt": args[2],
+                                                   "degrees_from_north": d - 360 * z3.ToReal(z3.ToInt(d / 360)), "meta": kw.get("meta", NONE)}, "fresh")
+
+
+_from = lambda key, comp, n: (f"len(result.{comp}.amplitude) == {n} and forall(i, 0, {n}, result.{comp}.amplitude[i] == data['{key}'][i]) and "
+                              f"result.{comp}.dt_in_seconds == data['dt_in_seconds']")
+FROM_DICT = Contract(qual="hvsrpy.seismic_recording_3c.SeismicRecording3C._from_dict", params=["cls", "data"], make_inputs=_fd_inputs, modifies=[],
+                     ghost={"NA_": NA_, "NB_": NB_, "NC_": NC_, "floor": lambda x: z3.ToReal(z3.ToInt(x))},
+                     ensures=[_from("ns_amplitude", "ns", "NA_"), _from("ew_amplitude", "ew", "NB_"), _from("vt_amplitude", "vt", "NC_"),
+                              "result.degrees_from_north == data['degrees_from_north'] - 360 * floor(data['degrees_from_north'] / 360)"],
+                     notes="the recording built from a dictionary carries exactly its samples, time step and (reduced) orientation")
+TASKS += [FunctionTask(TO_DICT, clauses=["what is written is the recording's content"]),
+          FunctionTask(FROM_DICT, module_env={"TimeSeries": C10.TS_CTOR}, clauses=["what is read back is the stored content"])]
+_d = z3.Real("d")
+from pyvc.contract import LemmaTask
+TASKS.append(LemmaTask("orientation-survives-reduction", [_d >= 0, _d < 360], _d - 360 * z3.ToReal(z3.ToInt(_d / 360)) == _d,
+                       "an orientation already in [0, 360) - what the constructor stores - is unchanged by the reduction applied on load"))
+
 META = dict(
     level="other",
     explanation="proved: TimeSeries.__init__ / from_timeseries give the object fresh sample storage with equal content; n_samples, fs, fnyq, time; trim keeps "
